@@ -167,12 +167,16 @@ def context_templates():
 
 BOOL_EXPRS = ["(RsV == 1)", "(RsV < RtV)", "(!RsV)", "(RsV && RtV)", "((RsV < 2) || (RtV > 3))", "(RsV ? (RtV == 1) : (RtV < 2))",
               "(RsV ? !RtV : (RtV && RsV))", "((RsV == 1) == (RtV == 2))", "((RsV < 1) ? (RtV < 2) : 0)", "(RsV ? 1 : (RtV < 2))",
-              "(RsV ? (RtV ? (RsV == 2) : (RtV != 3)) : (RsV >= RtV))", "(!(RsV < RtV))"]
+              "(RsV ? (RtV ? (RsV == 2) : (RtV != 3)) : (RsV >= RtV))", "(!(RsV < RtV))",
+              # folded comparisons and statement-expressions whose value is a truth value
+              "(1 == 1)", "(!(1 == 1))", "((1 == 1) && (RsV > 1))", "((2 < 1) || (RsV == RtV))", "(!(1 == 2) + 0)",
+              "({ int32_t x = RsV; x > 3; })", "({ int32_t y = RtV; (y == 1) || (y == 2); })"]
 BOOL_CONSUMERS = ["{ RdV = @; }", "{ RddV = @; }", "{ int8_t q = @; RdV = q; }", "{ uint64_t q; q = @; RddV = q; }",
                   "{ if (@) { RdV = 1; } }", "{ RdV = @ ? 3 : 4; }", "{ RdV = RsV + @; }", "{ RdV = @ << 2; }", "{ RdV = (@ && RtV); }",
                   "{ RdV = !@; }", "{ RdV = clz32(@); }", "{ mem_store_u8(RtV, @); }", "{ for (i = 0; @ && (i < 2); i++) { RxV += 1; } }",
                   "{ PdV = @; }", "{ RdV = (@ == 1); }", "{ RdV = -@; }", "{ RdV = ~@; }", "{ JUMP(@); }", "{ RdV = (int16_t) @; }",
-                  "{ RxV += @; }", "{ RdV = (@ ? RsV : RtV) + 1; }"]
+                  "{ RxV += @; }", "{ RdV = (@ ? RsV : RtV) + 1; }", "{ RdV = RsV << @; }", "{ RddV = RuuV >> @; }",
+                  "{ RxV <<= @; }", "{ RdV = RsV * @; }", "{ RdV = extract32(RsV, @, 3); }"]
 
 
 def bool_consumer_templates():
